@@ -94,6 +94,10 @@ func parseDocker(raw string, kind Kind, first bool) (*URL, error) {
 	}
 	if container == "" {
 		return nil, errors.New("empty container name")
+	} else if container[0] == '-' {
+		// The container name is passed as an argument to docker commands, where
+		// a leading dash would be parsed as an option.
+		return nil, errors.New("container name starts with '-'")
 	} else if path == "" {
 		if kind == Kind_Synchronization {
 			return nil, errors.New("missing path")
